@@ -27,7 +27,7 @@ PROPS = {
         rule=("case = (kernel group, N, block of residues p mod 2N | special class list | sampled block | wrapper "
               "call sequence); distinct by descriptor hash; non-trivial when N >= 2 (maps differ from identity "
               "for some p in the block)"),
-        require={"all": ["rot_p_checked", "auto_p_checked", "wrapper_calls", "inplace_unequal_size_calls", "auto_branch:cycles",
+        require={"all": ["rot_p_checked", "auto_p_checked", "wrapper_calls", "inplace_unequal_size_calls", "cross_dimension_sequences", "auto_branch:cycles",
                          "auto_branch:mirror", "auto_branch:negate", "auto_branch:negamirror",
                          "auto_branch:identity"]},
         assumptions=["index-map oracle uses 128-bit Euclidean remainders; probe a_i=i+1 is injective so one probe "
